@@ -94,7 +94,7 @@ def rp_part(pid, tier, seed, wd, prefixes):
         return dict(new=new, known=known, coverage=coverage, assumptions=assumptions)
 
 
-FLOW_SIZES = {"quick": dict(walks=100, rand=120, depth=40), "thorough": dict(walks=2500, rand=3000, depth=60)}
+FLOW_SIZES = {"quick": dict(walks=100, rand=120, depth=40), "thorough": dict(walks=800, rand=1000, depth=60)}
 
 
 def flow_part(pid, tier, seed, wd, prefixes):
